@@ -111,6 +111,8 @@ class Policy(object):
         self.resume = True
         self.lazy_start = 0  # >0: up to that many times an offered task is started only after a further event (relaxes A2)
         self.lazy_after_rerun = False
+        self.bit_values = None  # e.g. [True, False, None, "", [], {}, 0, "x"] for raw conditions
+        self.resume_verbs = False  # the resume request is either `resuming` or `running` (symbolic)
         self.requested_first = False  # every action is reported requested before running
         self.early_resume = False  # a resume request may come at any boundary after the pause request
         self.rerun_probe = False  # one rerun request at a symbolic boundary while the workflow is not completed
@@ -453,9 +455,13 @@ class Env(object):
         result = {}
         bits = (False, False)
         conds = [c for c, _, _ in self.wf.transitions(act.task)] if act.task in self.wf.tasks else []
-        if p.bits and any(c in ("c0", "c1") for c in conds):
+        if p.bits and any(c in ("c0", "c1", "raw0", "raw1") for c in conds):
             bkey = ("b:%s" % act.task) if p.by_task else ("b%d" % self.step)
-            bits = (self.ch.flag(bkey + ".0"), self.ch.flag(bkey + ".1"))
+            if p.bit_values:
+                # condition values that are not booleans: a transition fires only on a true condition
+                bits = (p.bit_values[self.ch.pick(bkey + ".0", len(p.bit_values))], p.bit_values[self.ch.pick(bkey + ".1", len(p.bit_values))])
+            else:
+                bits = (self.ch.flag(bkey + ".0"), self.ch.flag(bkey + ".1"))
         result["c0"], result["c1"] = bits
         if p.tokens and act.task in self.wf.tasks:
             for k, (cond, pubs, do) in enumerate(self.wf.transitions(act.task)):
@@ -543,7 +549,8 @@ class Env(object):
             self.boundary()
             if not self.inflight:
                 if self.pause_req and self.status() == S.PAUSED and p.resume:
-                    self.request(S.RESUMING)
+                    # both verbs the lifecycle accepts as a resume
+                    self.request(S.RUNNING if (p.resume_verbs and self.ch.flag("resume_with_running")) else S.RESUMING)
                     self.offers()
                     if self.inflight:
                         continue
